@@ -94,6 +94,7 @@ func vC06RunBytes(b []byte) (obs vSx, fl *vC06Fail, tree *vC05Node) {
 func TestVerifC06(t *testing.T) {
 	k := vNewKit(t, "C06")
 	defer k.close()
+	nKnown := 0
 	runOne := func(c vSx) {
 		if !c.isList() || len(c.l) != 2 || !c.l[0].isInt() {
 			k.record(c, vL(vZ(-1)), false)
@@ -138,10 +139,16 @@ func TestVerifC06(t *testing.T) {
 		}
 		idx := k.record(c, obs, nontrivial)
 		if fl != nil {
-			k.fail(idx, c.size(), fl.oracle, fl.key, fl.detail)
 			if fl.key != "" {
+				// the kit keeps at most 5000 failures: never let reproductions of the recorded
+				// finding crowd out an unlisted failure
 				k.count("known", fl.key)
+				nKnown++
+				if nKnown > 400 {
+					return
+				}
 			}
+			k.fail(idx, c.size(), fl.oracle, fl.key, fl.detail)
 		}
 	}
 	if k.replay != nil {
